@@ -7,10 +7,10 @@ open PotasscoVerif
 /-- `tr <C|I> <hex>` -/
 def runTR (args : List String) : String :=
   match args with
-  | [_, h] =>
+  | [mode, h] =>
     match unhex h with
     | some bytes =>
-      let r := TextIn.read bytes
+      let r := if mode == "I" then TextIn.readInc bytes else TextIn.read bytes   -- `I`: accept + parse(Incremental) while more() (C10_modes)
       joinSp (r.calls.map showCall ++ [match r.err with | none => "OK" | some l => s!"ERR:{l}:1"])
     | none => "bad-op"
   | _ => "bad-op"
